@@ -61,7 +61,7 @@ func load(dir string) *World {
 	}
 	prog, spkgs := ssautil.AllPackages(pkgs, ssa.BuilderMode(0))
 	prog.Build()
-	a := &analyzer{prog: prog, sums: map[*ssa.Function]*Summary{}, byName: map[string][]*ssa.Function{}, mod: modulePath}
+	a := &analyzer{prog: prog, sums: map[*ssa.Function]*Summary{}, byName: map[string][]*ssa.Function{}, usedStd: map[string]bool{}, mod: modulePath}
 	w := &World{a: a}
 	seen := map[*ssa.Function]bool{}
 	var addFn func(f *ssa.Function, method bool)
